@@ -90,6 +90,7 @@ fn keys_with(set: &BTreeSet<(String, u8, u32)>) -> Vec<(u32, Vec<u8>, Vec<u8>)> 
 }
 
 /// `concrete` plus the router keys of `keys_with`, in the item form of `origins_of`.
+#[allow(dead_code)]
 fn with_keys(set: &BTreeSet<(String, u8, u32)>) -> BTreeSet<(String, u8, u32)> {
     let mut res = set.clone();
     for (asn, ski, _) in keys_with(set) {
@@ -100,6 +101,43 @@ fn with_keys(set: &BTreeSet<(String, u8, u32)>) -> BTreeSet<(String, u8, u32)> {
     res
 }
 
+thread_local! {
+    /// Flavour of the behaviour being replayed: the data sets 1 and 2 have the same route origins and differ only in
+    /// their router keys (a change of one payload type alone is a change).
+    static KEYS_ONLY: std::cell::Cell<bool> = const { std::cell::Cell::new(false) };
+}
+
+/// Origins and router keys of data set `d` under the current flavour.
+fn parts(d: i64) -> (BTreeSet<(String, u8, u32)>, Vec<(u32, Vec<u8>, Vec<u8>)>) {
+    if KEYS_ONLY.with(|k| k.get()) && (d == 1 || d == 2) { (concrete(1), keys_with(&concrete(d))) }
+    else { (concrete(d), keys_with(&concrete(d))) }
+}
+
+/// The items of data set `d` (origins plus router keys, in the form of `origins_of`).
+fn items(d: i64) -> BTreeSet<(String, u8, u32)> {
+    let (mut res, keys) = parts(d);
+    for (asn, ski, _) in keys {
+        let mut id = [0u8; 20];
+        id.copy_from_slice(&ski);
+        res.insert((format!("key:{}", rpki::crypto::KeyIdentifier::from(id)), 0, asn));
+    }
+    res
+}
+
+fn slurm_of(d: i64) -> LocalExceptions {
+    let b64 = |b: &[u8]| rpki::util::base64::Slurm.encode(b);
+    let (set, keys) = parts(d);
+    let items: Vec<Value> = set.iter().map(|(p, m, a)| json!({"asn": a, "prefix": p, "maxPrefixLength": m})).collect();
+    let keys: Vec<Value> = keys.iter().map(|(asn, ski, info)| json!({"asn": asn, "SKI": b64(ski), "routerPublicKey": b64(info)})).collect();
+    let doc = json!({
+        "slurmVersion": 1,
+        "validationOutputFilters": {"prefixFilters": [], "bgpsecFilters": []},
+        "locallyAddedAssertions": {"prefixAssertions": items, "bgpsecAssertions": keys}
+    });
+    LocalExceptions::from_json(&doc.to_string(), false).expect("slurm with keys")
+}
+
+#[allow(dead_code)]
 fn slurm_with_keys(set: &BTreeSet<(String, u8, u32)>) -> LocalExceptions {
     let b64 = |b: &[u8]| rpki::util::base64::Slurm.encode(b);
     let items: Vec<Value> = set.iter().map(|(p, m, a)| json!({"asn": a, "prefix": p, "maxPrefixLength": m})).collect();
@@ -117,7 +155,9 @@ pub fn main(args: &Args) -> i32 {
     rep.touch("C13");
     rep.touch("C14");
     let behaviours = read_behaviours(args.input.as_deref().expect("--in"));
-    for b in behaviours.iter() {
+    for (bi, b) in behaviours.iter().enumerate() {
+        // every third behaviour in the flavour "router keys only"
+        KEYS_ONLY.with(|k| k.set(bi % 3 == 1));
         let res = catch(std::panic::AssertUnwindSafe(|| one(&mut rep, b, args)));
         if let Err(msg) = res {
             for pid in ["C13", "C14"] {
@@ -152,9 +192,9 @@ fn one(rep: &mut Report, b: &Value, args: &Args) {
         match act {
             "run" => {
                 let d = step["arg"].as_i64().unwrap();
-                let set = concrete(d);
+                let set = items(d);
                 let report = ValidationReport::new(&cfg);
-                let changed = hist.update(report, &slurm_with_keys(&set), Metrics::new());
+                let changed = hist.update(report, &slurm_of(d), Metrics::new());
                 hist.mark_update_done();
                 let serial: u32 = hist.read().serial().into();
                 let really_changed = cur_set.as_ref().map(|c| *c != set);
@@ -266,8 +306,7 @@ fn one(rep: &mut Report, b: &Value, args: &Args) {
                         continue
                     }
                     // exactness
-                    let mut have = with_keys(&concrete(data_at));
-                    let cur = &with_keys(cur);
+                    let mut have = items(data_at);
                     let mut ok = true;
                     for (item, ann) in &acts {
                         match item {
